@@ -380,3 +380,23 @@ Proof.
   cbn [astep cstep cit gen cmore]. specialize (IH m). destruct (arun_state (Cont (mkCS g true m)) (repeat ONext (length g))) as [a o].
   cbn in *. rewrite IH. reflexivity.
 Qed.
+
+(* ---------- callback-driven paging ---------- *)
+Lemma async_from_spec : forall srv st, nfails srv = O ->
+  let '(o, r, f) := async_from true st srv in reqs o = expected_reqs (Some st) srv /\ r = all_rows srv /\ f = true.
+Proof.
+  induction srv as [rs|rs st' rest IH|rest IH|rest IH]; intros st Hn; cbn in *; try discriminate; auto.
+  - specialize (IH st' Hn). destruct (async_from true st' rest) as [[o r] f]. destruct IH as (A & B & C). cbn. rewrite A, B. auto.
+  - specialize (IH st Hn). destruct (async_from true st rest) as [[o r] f]. destruct IH as (A & B & C). cbn. rewrite A. auto.
+Qed.
+
+Lemma async_pages_spec early srv : nfails srv = O ->
+  let '(o, r, f) := async_pages early srv in reqs o = expected_reqs None srv /\ r = all_rows srv /\ f = true.
+Proof.
+  intros Hn. unfold async_pages, add_callback_registers. pose proof (init_spec srv) as I. destruct (init srv) as [s0 o0].
+  destruct I as (_ & _ & I3 & I4 & _ & I6 & _). unfold pstates, rest_rows, pending_fails in *.
+  destruct (more s0) as [[st rest]|] eqn:Hm.
+  - pose proof (async_from_spec rest st ltac:(lia)) as A. destruct (async_from true st rest) as [[o r] f].
+    destruct A as (A1 & A2 & A3). rewrite reqs_app, A1, A2. auto.
+  - rewrite app_nil_r in I3, I4. auto.
+Qed.
